@@ -5,6 +5,7 @@ import (
 
 	"github.com/lightningnetwork/lnd/htlcswitch"
 	"github.com/lightningnetwork/lnd/lnwire"
+	"github.com/stretchr/testify/assert"
 	"github.com/stretchr/testify/require"
 )
 
@@ -35,16 +36,25 @@ func TestF24SecondKeystoneForOpenCircuit(t *testing.T) {
 		require.NoError(t, cm.OpenCircuits(htlcswitch.Keystone{InKey: c.Incoming, OutKey: out0}))
 
 		err = cm.OpenCircuits(htlcswitch.Keystone{InKey: c.Incoming, OutKey: out1})
-		require.Error(t, err, "a circuit that already has a keystone was opened again")
-		require.Equal(t, 1, cm.NumOpen(), "one incoming HTLC, one open circuit")
+		accepted := err == nil
+		assert.Error(t, err, "a circuit that already has a keystone was opened again")
+		assert.Equal(t, 1, cm.NumOpen(), "one incoming HTLC, one open circuit")
 
-		// The response for the one real outgoing HTLC closes the circuit; after its deletion no other
-		// outgoing key may still lead to it.
-		_, err = cm.CloseCircuit(out0)
+		// The response for the outgoing HTLC closes the circuit and the circuit is deleted. Afterwards no
+		// outgoing key may still lead to a circuit: a late (or replayed) response must find nothing.
+		last := out0
+		if accepted {
+			last = out1
+		}
+		_, err = cm.CloseCircuit(last)
 		require.NoError(t, err)
 		require.NoError(t, cm.DeleteCircuits(c.Incoming))
-		_, err = cm.CloseCircuit(out1)
-		require.Error(t, err, "a response under a second outgoing key is still matched after the circuit was deleted")
+		for _, out := range []htlcswitch.CircuitKey{out0, out1} {
+			_, err = cm.CloseCircuit(out)
+			assert.Error(t, err, "a response under outgoing key %v is still matched to the deleted circuit "+
+				"(a second response for one incoming HTLC)", out)
+		}
+		assert.Equal(t, 0, cm.NumOpen(), "a stale opened entry survives the deletion")
 	})
 
 	t.Run("duplicate outgoing key in one batch", func(t *testing.T) {
